@@ -27,7 +27,7 @@ use kira::{
 };
 use serde_json::{json, Value};
 
-use crate::common::*;
+use kv::common::*;
 
 #[derive(Default)]
 pub struct ProbeLog {
@@ -645,7 +645,9 @@ pub fn run_scenario(sc: &Value, t: &mut Tracer) {
 	t.ev(json!({"a": "end"}));
 }
 
-pub fn main(args: &[String]) {
+fn main() {
+	let args: Vec<String> = std::env::args().collect();
+	let args = &args[1..];
 	quiet_panics();
 	install_hook();
 	let inp = arg(args, "--in").expect("--in");
